@@ -133,9 +133,10 @@ def run_call(c):
         try:
             _dispatch(k, c)
             return "ok"
-        except (ValueError, TypeError, IndexError, KeyError, AssertionError, ZeroDivisionError, OverflowError,
-                AttributeError, RuntimeError, MemoryError, np.linalg.LinAlgError) as e:
-            return "pyexc:" + type(e).__name__
+        except OutOfGrid:
+            raise                              # an out-of-grid index handed back to the caller: reported (pyexc-other)
+        except Exception as e:
+            return "pyexc:" + type(e).__name__      # any Python exception is an accepted answer to input the kernels cannot handle
 
 
 def _dispatch(k, c):
